@@ -129,6 +129,29 @@ Theorem C07_escalate : forall keep cfg fam f c,
   (forall j, j <> fl_child f -> child_at fam' j = child_at fam j).
 Proof. exact supervise_escalate. Qed.
 
+(* Escalation chains (child -> P -> G): a failure the child's supervisor does not escalate stays at
+   P's level ... *)
+Theorem C07_chain_not_escalated : forall keep cfgP cfgC eP t f,
+  c_status (parent_of t) = Running ->
+  directive_of (cfgC (fl_child f)) (fl_ety f) <> Some DEscalate ->
+  t_top (chain_fail keep cfgP cfgC eP t f) = t_top t /\
+  t_sub (chain_fail keep cfgP cfgC eP t f) = supervise keep cfgC (t_sub t) f.
+Proof. exact chain_not_escalated. Qed.
+
+(* ... and two Escalate directives in a row hand it to the handler two levels up, with the error the
+   middle actor failed with; both failing actors wait suspended. *)
+Theorem C07_chain_escalated_twice : forall keep cfgP cfgC eP t f c,
+  f_children (t_top t) = [fresh_child] ->
+  child_at (t_sub t) (fl_child f) = Some c -> c_status c = Running ->
+  directive_of (cfgC (fl_child f)) (fl_ety f) = Some DEscalate ->
+  directive_of cfgP eP = Some DEscalate ->
+  let t' := chain_fail keep cfgP cfgC eP t f in
+  f_escal (t_top t') = f_escal (t_top t) ++ [(0%nat, eP)] /\
+  f_escal (t_sub t') = f_escal (t_sub t) ++ [(fl_child f, fl_ety f)] /\
+  c_status (parent_of t') = Suspended /\
+  child_at (t_sub t') (fl_child f) = Some (suspend_child c).
+Proof. exact chain_escalated_twice. Qed.
+
 (* The budget over failure sequences of any length: with maxRetries = m > 0 and a positive window,
    n consecutive failures (each within the window of the previous one) with faults + n <= m
    restart the child n times ... *)
@@ -217,6 +240,8 @@ Print Assumptions C07_restart_within_budget.
 Print Assumptions C07_budget_exhausted_suspends.
 Print Assumptions C07_resume_keeps_state.
 Print Assumptions C07_escalate.
+Print Assumptions C07_chain_not_escalated.
+Print Assumptions C07_chain_escalated_twice.
 Print Assumptions C07_budget_counts_restarts.
 Print Assumptions C07_budget_then_suspends.
 Print Assumptions C07_suspended_stays_suspended.
